@@ -38,7 +38,7 @@ func (c10) Components() map[string][]string {
 	}
 }
 func (c10) ProbeNames() []string {
-	ps := []string{"read-at-eof", "seek-negative-target", "seek-past-eof", "read-after-close", "zero-len-read"}
+	ps := []string{"read-at-eof", "seek-negative-target", "seek-past-eof", "read-after-close", "zero-len-read", "file-with-holes"}
 	for _, k := range fsKinds {
 		ps = append(ps, "kind-"+k)
 	}
@@ -150,10 +150,19 @@ func (p c10) Exec(t *core.Trace) *core.Result {
 	size := sizeForClass(t.I("sizeclass")%10, t.I("sizek")%16+1, unit)
 	content := core.PatternBytes(uint64(t.I("tag")), size)
 	other := core.PatternBytes(uint64(t.I("tag"))+1, unit+17)
+	sparse := false
+	if kind == "ext4-mke2fs" && t.I("tag")%2 == 0 && size > 3*4096 {
+		// holes inside the file (every other 4 KiB page): a single Read then runs from data into a hole and back
+		sparse = true
+		for off := int64(4096); off+4096 <= size; off += 8192 {
+			clear(content[off : off+4096])
+		}
+		res.Probe("file-with-holes")
+	}
 	tree := []imgEntry{
 		{Path: "BEFORE.BIN", Data: other},
 		{Path: "DIR", Dir: true},
-		{Path: "DIR/TARGET.DAT", Data: content},
+		{Path: "DIR/TARGET.DAT", Data: content, Sparse: sparse},
 		{Path: "AFTER.BIN", Data: other},
 	}
 	fail := func(i int, clause, trig, locus, detail string) *core.Result {
